@@ -21,3 +21,16 @@ package set
 //@     invariant freshSet: set != nil && fresh(set) && set.contents != nil && fresh(set.contents)
 //@     invariant members: forall k string :: sHas(set, k) <==> (exists i :: 0 <= i && i <= rangeindex && items[i] == k)
 //@     invariant atMost: sLen(set) <= rangeindex + 1 && (rangeindex >= 0 ==> sLen(set) >= 1)
+
+//@ # assumed (the bodies range over the map; not yet under contract)
+//@ func (*Set[T]).Contents -> (r)
+//@   trusted
+//@   assigns fresh(elems string)
+//@   ensures forall i :: 0 <= i && i < len(r) ==> sHas(s, r[i])
+//@   ensures forall k string :: sHas(s, k) ==> (exists i :: 0 <= i && i < len(r) && r[i] == k)
+//@ func (*Set[T]).Intersection -> (r)
+//@   trusted
+//@   assigns fresh(Set[string].contents), fresh(map map[string]struct{})
+//@   ensures r != nil && fresh(r) && r.contents != nil && fresh(r.contents)
+//@   ensures forall k string :: sHas(r, k) <==> (sHas(s, k) && sHas(set, k))
+//@   ensures sLen(r) <= sLen(s) && (set != nil ==> sLen(r) <= sLen(set))
